@@ -11,7 +11,7 @@
          the pointer-range check on, and then None for ever.
    No axioms. *)
 From Coq Require Import ZArith List Bool Lia Arith.
-From HB Require Import RsPrelude Sse2 Gen Group Raw Check ArithFacts WFDefs.
+From HB Require Import RsPrelude Sse2 Gen Group Raw Check WFDefs.
 Import ListNotations.
 Open Scope nat_scope.
 
@@ -78,6 +78,13 @@ Proof.
   - destruct (f a); simpl; lia.
 Qed.
 
+(* (same as ArithFacts.wrap_small; restated so that this file only depends on the model) *)
+Lemma wrap_small' w x : (0 <= x < 2 ^ w)%Z -> wrap w x = x.
+Proof. intros H. unfold wrap. apply Z.mod_small. exact H. Qed.
+
+Lemma two_p_64' : (2 ^ 64 = 18446744073709551616)%Z.
+Proof. reflexivity. Qed.
+
 Lemma is_full_EMPTY : is_full EMPTY = false.
 Proof. reflexivity. Qed.
 
@@ -135,17 +142,17 @@ Section IterFacts.
   Lemma GW_pos : 0 < GW.
   Proof. destruct HW as [H|H]; rewrite H; lia. Qed.
 
-  Lemma fl_app t a n m : fl t a (n + m) = fl t a n ++ fl t (a + n) m.
+  Lemma fl_app (t : table T) a n m : fl t a (n + m) = fl t a n ++ fl t (a + n) m.
   Proof. unfold fl. rewrite seq_app, filter_app. reflexivity. Qed.
 
-  Lemma fl_nil t a : fl t a 0 = [].
+  Lemma fl_nil (t : table T) a : fl t a 0 = [].
   Proof. reflexivity. Qed.
 
-  Lemma full_list_fl t : full_list t = fl t 0 (nb T t).
+  Lemma full_list_fl (t : table T) : full_list t = fl t 0 (nb T t).
   Proof. reflexivity. Qed.
 
   (* ---- group loads ---- *)
-  Lemma load_aligned_ok t p q :
+  Lemma load_aligned_ok (t : table T) p q :
     p = GW * q -> p + GW <= length (ctrl t) ->
     load_aligned B T t p = Ok (firstn GW (skipn p (ctrl t))).
   Proof.
@@ -156,7 +163,7 @@ Section IterFacts.
     destruct (Nat.leb_spec (GW * q + GW) (length (ctrl t))); [reflexivity | lia].
   Qed.
 
-  Lemma group_ok_at t p :
+  Lemma group_ok_at (t : table T) p :
     Forall valid_ctrl (ctrl t) -> p + GW <= length (ctrl t) ->
     group_ok GW (firstn GW (skipn p (ctrl t))).
   Proof.
@@ -165,7 +172,7 @@ Section IterFacts.
     - apply Forall_firstn', Forall_skipn, Hv.
   Qed.
 
-  Lemma group_full t p :
+  Lemma group_full (t : table T) p :
     Forall valid_ctrl (ctrl t) -> p + GW <= length (ctrl t) ->
     map (fun b => p + b) (g_match_full B (firstn GW (skipn p (ctrl t)))) = fl t p GW.
   Proof.
@@ -222,7 +229,7 @@ Section IterFacts.
 
   (* moving to the next group: the load is in bounds and aligned; the new state has exactly the
      rest of the scan pending *)
-  Lemma advance t E it :
+  Lemma advance (t : table T) E it :
     Scan t E -> StOK E it -> it_next it < E ->
     exists g, load_aligned B T t (it_next it) = Ok g /\
       forall e x,
@@ -244,18 +251,18 @@ Section IterFacts.
         rewrite <- fl_app. f_equal. lia.
   Qed.
 
-  Lemma pending_cur_nil t E it :
+  Lemma pending_cur_nil (t : table T) E it :
     it_cur it = [] -> pending t E it = fl t (it_next it) (E - it_next it).
   Proof. intros Hc. unfold pending. rewrite Hc. reflexivity. Qed.
 
-  Lemma pending_nil_cur t E it : pending t E it = [] -> it_cur it = [].
+  Lemma pending_nil_cur (t : table T) E it : pending t E it = [] -> it_cur it = [].
   Proof.
     unfold pending. intros H. apply app_eq_nil in H. destruct H as [H _].
     destruct (it_cur it); [reflexivity | discriminate].
   Qed.
 
   (* ---- next_impl yields the head of the pending list ---- *)
-  Lemma next_impl_some t E check : Scan t E ->
+  Lemma next_impl_some (t : table T) E check : Scan t E ->
     forall fuel it x rest,
       StOK E it -> pending t E it = x :: rest -> E - it_next it <= fuel * GW ->
       (check = false \/ it_end it = E) ->
@@ -300,7 +307,7 @@ Section IterFacts.
   Qed.
 
   (* ---- with the pointer-range check on, an exhausted range answers None ---- *)
-  Lemma next_impl_none t E : Scan t E ->
+  Lemma next_impl_none (t : table T) E : Scan t E ->
     forall fuel it,
       StOK E it -> pending t E it = [] -> E - it_next it <= fuel * GW -> it_end it = E ->
       exists it', next_impl B T fuel true t it = Ok (None, it') /\
@@ -325,7 +332,7 @@ Section IterFacts.
       + exists it'. cbn [it_items] in Hi. auto.
   Qed.
 
-  Lemma next_impl_none_stable t fuel it :
+  Lemma next_impl_none_stable (t : table T) fuel it :
     it_cur it = [] -> it_end it <= it_next it ->
     next_impl B T fuel true t it = Ok (None, it).
   Proof.
@@ -334,7 +341,7 @@ Section IterFacts.
   Qed.
 
   (* ---- range_new ---- *)
-  Lemma range_new_spec t E a len n :
+  Lemma range_new_spec (t : table T) E a len n :
     Scan t E -> (exists q, a = GW * q) -> a < E ->
     exists it, range_new B T t a len n = Ok it /\ StOK E it /\
                pending t E it = fl t a (E - a) /\ it_end it = a + len /\ it_items it = n.
@@ -351,7 +358,7 @@ Section IterFacts.
   Qed.
 
   (* ---- I6: the range collector ---- *)
-  Lemma range_collect_spec t E fuel : Scan t E -> E <= fuel * GW + GW ->
+  Lemma range_collect_spec (t : table T) E fuel : Scan t E -> E <= fuel * GW + GW ->
     forall calls it,
       StOK E it -> it_end it = E -> length (pending t E it) < calls ->
       exists it_end', range_collect B T calls fuel t it = Ok (pending t E it, it_end') /\
@@ -384,15 +391,15 @@ Section IterFacts.
 
   Lemma wsub_succ n : (zn (S n) < 2 ^ 64)%Z -> wsub 64 (zn (S n)) 1 = zn n.
   Proof.
-    intros H. unfold wsub. rewrite wrap_small; unfold zn in *; lia.
+    intros H. unfold wsub. rewrite wrap_small'; unfold zn in *; lia.
   Qed.
 
-  Lemma iter_next_none t E it : IterInv t E it [] -> iter_next B T t it = Ok (None, it).
+  Lemma iter_next_none (t : table T) E it : IterInv t E it [] -> iter_next B T t it = Ok (None, it).
   Proof.
     intros (_ & _ & Hi & _). unfold iter_next. rewrite Hi. reflexivity.
   Qed.
 
-  Lemma iter_next_some t E it x rest :
+  Lemma iter_next_some (t : table T) E it x rest :
     Scan t E -> E <= iter_fuel B T t * GW ->
     IterInv t E it (x :: rest) ->
     exists it', iter_next B T t it = Ok (Some x, it') /\ IterInv t E it' rest.
@@ -415,7 +422,7 @@ Section IterFacts.
   Qed.
 
   (* I3, general form: n steps from any state *)
-  Lemma iter_steps_spec t E : Scan t E -> E <= iter_fuel B T t * GW ->
+  Lemma iter_steps_spec (t : table T) E : Scan t E -> E <= iter_fuel B T t * GW ->
     forall n it P, IterInv t E it P ->
       exists it', iter_steps B T n t it = Ok (firstn n P, it') /\ IterInv t E it' (skipn n P).
   Proof.
@@ -429,7 +436,7 @@ Section IterFacts.
         rewrite Hs. cbn [bind]. exists it'. split; [reflexivity | exact HI'].
   Qed.
 
-  Lemma iter_collect_spec t E : Scan t E -> E <= iter_fuel B T t * GW ->
+  Lemma iter_collect_spec (t : table T) E : Scan t E -> E <= iter_fuel B T t * GW ->
     forall fuel it P, IterInv t E it P -> length P < fuel -> iter_collect B T fuel t it = Ok P.
   Proof.
     intros HS HF. induction fuel as [|fuel IH]; intros it P HI Hlen; [lia|].
@@ -441,7 +448,7 @@ Section IterFacts.
   Qed.
 
   (* I4, general form *)
-  Lemma fold_head t E it n :
+  Lemma fold_head (t : table T) E it n :
     n = zn (length (pending t E it)) -> (n < 2 ^ 64)%Z ->
     (zn (length (it_cur it)) >? n)%Z = false /\
     wsub 64 n (zn (length (it_cur it))) = zn (length (fl t (it_next it) (E - it_next it))).
@@ -449,10 +456,10 @@ Section IterFacts.
     intros Hn Hb. unfold pending in Hn. rewrite app_length, map_length in Hn.
     split.
     - rewrite Z.gtb_ltb. apply Z.ltb_ge. rewrite Hn. unfold zn. lia.
-    - unfold wsub. rewrite wrap_small; rewrite Hn in *; unfold zn in *; lia.
+    - unfold wsub. rewrite wrap_small'; rewrite Hn in *; unfold zn in *; lia.
   Qed.
 
-  Lemma fold_done t E it :
+  Lemma fold_done (t : table T) E it :
     (zn (length (fl t (it_next it) (E - it_next it))) =? 0)%Z = true ->
     Ok (map (fun b => it_first it + b) (it_cur it)) = Ok (A := list nat) (pending t E it).
   Proof.
@@ -461,7 +468,7 @@ Section IterFacts.
     rewrite app_nil_r. reflexivity.
   Qed.
 
-  Lemma fold_impl_spec t E : Scan t E ->
+  Lemma fold_impl_spec (t : table T) E : Scan t E ->
     forall fuel it n,
       StOK E it -> n = zn (length (pending t E it)) -> (n < 2 ^ 64)%Z ->
       E - it_next it <= fuel * GW ->
@@ -488,7 +495,7 @@ Section IterFacts.
       + cbn [it_next]. simpl in Hf. lia.
   Qed.
 
-  Lemma iter_fold_spec t E it P : Scan t E -> E <= iter_fuel B T t * GW ->
+  Lemma iter_fold_spec (t : table T) E it P : Scan t E -> E <= iter_fuel B T t * GW ->
     IterInv t E it P -> iter_fold B T t it = Ok P.
   Proof.
     intros HS HF (Hst & Hp & Hi & Hb). unfold iter_fold.
